@@ -1,6 +1,7 @@
 package main
 
 import (
+	"regexp"
 	"sort"
 	"fmt"
 	"go/token"
@@ -66,6 +67,10 @@ func (vc *FuncVC) lookupIfaceContract(recvT types.Type, m *types.Func) (*Contrac
 	return nil, ""
 }
 
+// devirtualize: resolve interface calls on receivers of statically known concrete type (flag -devirt)
+var devirtualize bool
+var mkILit = regexp.MustCompile(`^\(mkI (\d+) (.+)\)$`)
+
 func (vc *FuncVC) execCall(s *State, cc *ssa.CallCommon, site ssa.Instruction, pos token.Pos) []Term {
 	ord := vc.cur.callOrd[site]
 	name := vc.cur.callKeyOf[site]
@@ -79,6 +84,42 @@ func (vc *FuncVC) execCall(s *State, cc *ssa.CallCommon, site ssa.Instruction, p
 	if cc.IsInvoke() {
 		recv := vc.val(s, cc.Value)
 		vc.safety(s, "safe.nil", "invoke:"+vc.describe(cc.Value)+"."+cc.Method.Name(), pos, not(eq(recv, T("Iface", "(mkI 0 0)"))))
+		if devirtualize {
+			// the receiver was converted from a known concrete repository type in this very function (after
+			// inlining): the call goes to that type's own method, not to the interface's assumed contract
+			if m := mkILit.FindStringSubmatch(recv.S); m != nil {
+				var tag int
+				fmt.Sscanf(m[1], "%d", &tag)
+				if tag >= 1 && tag <= len(vc.ss.tagTypes) {
+					ct := vc.ss.tagTypes[tag-1]
+					sel := vc.eng.prog.MethodSets.MethodSet(ct).Lookup(cc.Method.Pkg(), cc.Method.Name())
+					if sel != nil {
+						pl := T(vc.ss.sortOf(ct), m[2])
+						pl.GoT = ct
+						recvArg := pl
+						mf := sel.Obj().(*types.Func)
+						rt := mf.Type().(*types.Signature).Recv().Type()
+						var fn *ssa.Function
+						if pt, isPtr := ct.(*types.Pointer); isPtr {
+							if _, recvIsPtr := rt.(*types.Pointer); !recvIsPtr && isStruct(pt.Elem()) {
+								// value-receiver method reached through a pointer: the method itself, on the struct read from the heap
+								if vsel := vc.eng.prog.MethodSets.MethodSet(pt.Elem()).Lookup(cc.Method.Pkg(), cc.Method.Name()); vsel != nil {
+									fn = vc.eng.prog.MethodValue(vsel)
+									vc.safety(s, "safe.nil", "devirt:"+vc.describe(cc.Value)+"."+cc.Method.Name(), pos, not(eq(pl, T("Int", "0"))))
+									recvArg = vc.loadStructFromHeap(s, pl, pt.Elem())
+									recvArg.GoT = pt.Elem()
+								}
+							} else {
+								fn = vc.eng.prog.MethodValue(sel)
+							}
+						}
+						if fn != nil && fn.Blocks != nil && fn.Pkg != nil && strings.HasPrefix(fn.Pkg.Pkg.Path(), modPrefix) {
+							return vc.callStatic(s, fn, nil, append([]Term{recvArg}, args...), name, ord, site, pos)
+						}
+					}
+				}
+			}
+		}
 		c, ckey := vc.lookupIfaceContract(cc.Value.Type(), cc.Method)
 		sig := cc.Method.Type().(*types.Signature)
 		pn := []string{"this"}
